@@ -245,8 +245,14 @@ def check_direct_vs_cached(idx: Index, rep: Report) -> None:
         r.fail("direct-match", Finding("C29.R3", direct.fq, "direct-match", "direct scan no longer matches `get_name_if_symbol(op) == name`", direct.loc))
     # duplicates rejected (first-match == last-wins)
     v = idx.func(TR, "SymbolTable.verify")
-    dup = [n for n in walk_local(v.node) if isinstance(n, ast.If) and " in met_names" in unparse(n.test) and isinstance(n.body[0], ast.Raise)]
-    add = [c for c in calls_in(v.node) if unparse(c.func) == "met_names.add"]
+    # a set local that collects the names met so far: `if name in S: raise` and `S.add(name)` on the same S
+    adds_ = [c for c in calls_in(v.node) if call_attr(c) == "add" and isinstance(c.func.value, ast.Name) and len(c.args) == 1]  # type: ignore[attr-defined]
+    dup = add = []
+    for c in adds_:
+        sn, el = c.func.value.id, unparse(c.args[0])  # type: ignore[attr-defined]
+        d_ = [n for n in walk_local(v.node) if isinstance(n, ast.If) and unparse(n.test) == f"{el} in {sn}" and isinstance(n.body[0], ast.Raise)]
+        if d_:
+            dup, add = d_, [c]
     if dup and add:
         r.ok("duplicates", f"{v.loc} SymbolTable.verify rejects redefinitions")
     else:
